@@ -37,19 +37,27 @@ struct FileModel {
 const WIDTHS_EDGE: [usize; 8] = [60, 511, 512, 513, 8191, 8192, 8193, 70];
 
 fn gen_file(w: &World, large: bool, max_recs: u64, max_len: u64) -> FileModel {
-    let n = 1 + w.draw(max_recs);
     let crlf = w.chance(1, 2);
     let term: &[u8] = if crlf { b"\r\n" } else { b"\n" };
     let last_line_terminated = !w.chance(1, 3);
-    let mut recs = Vec::new();
-    let mut bytes = Vec::new();
-    let mut names: Vec<String> = Vec::new();
-    for i in 0..n {
+    // draw the records first (one continue-flag per record), lay the file out afterwards
+    struct Plan {
+        name: String,
+        width: usize,
+        seq: Vec<u8>,
+        desc: bool,
+        own_len_as_width: bool,
+    }
+    let mut plans: Vec<Plan> = Vec::new();
+    loop {
+        let i = plans.len();
+        if i > 0 && !w.more(i as u64, max_recs) {
+            break;
+        }
         let mut name = string_from(w, &NAME_CHARS, 1, 6);
-        while names.contains(&name) {
+        while plans.iter().any(|p| p.name == name) {
             name.push_str(&format!("{}", i));
         }
-        names.push(name.clone());
         let (width, len) = if large {
             let width = if w.chance(1, 2) {
                 *w.pick(&WIDTHS_EDGE)
@@ -66,29 +74,38 @@ fn gen_file(w: &World, large: bool, max_recs: u64, max_len: u64) -> FileModel {
         let seq: Vec<u8> = (0..len)
             .map(|i| BASES[(a + i * b + i / 7 + i / 61) % BASES.len()])
             .collect();
+        let desc = w.chance(1, 3);
+        // a single-line record may be described by its own length (what samtools writes) or by
+        // the nominal width: both match the file
+        let own_len_as_width = len <= width && w.chance(1, 2);
+        plans.push(Plan { name, width, seq, desc, own_len_as_width });
+    }
+    let n = plans.len();
+    let mut recs = Vec::new();
+    let mut bytes = Vec::new();
+    for (i, p) in plans.into_iter().enumerate() {
+        let len = p.seq.len();
         bytes.push(b'>');
-        bytes.extend_from_slice(name.as_bytes());
-        if w.chance(1, 3) {
+        bytes.extend_from_slice(p.name.as_bytes());
+        if p.desc {
             bytes.extend_from_slice(b" some description");
         }
         bytes.extend_from_slice(term);
         let offset = bytes.len() as u64;
-        let mut p = 0;
-        while p < len {
-            let l = width.min(len - p);
-            bytes.extend_from_slice(&seq[p..p + l]);
-            p += l;
-            let is_last_line_of_file = p == len && i + 1 == n;
+        let mut q = 0;
+        while q < len {
+            let l = p.width.min(len - q);
+            bytes.extend_from_slice(&p.seq[q..q + l]);
+            q += l;
+            let is_last_line_of_file = q == len && i + 1 == n;
             if !is_last_line_of_file || last_line_terminated {
                 bytes.extend_from_slice(term);
             }
         }
-        // a single-line record may be described by its own length (what samtools writes) or by
-        // the nominal width: both match the file
-        let lb = if len <= width && w.chance(1, 2) { len } else { width };
+        let lb = if p.own_len_as_width { len } else { p.width };
         recs.push(RecModel {
-            name,
-            seq,
+            name: p.name,
+            seq: p.seq,
             width: lb,
             offset,
             line_bases: lb as u64,
@@ -205,7 +222,6 @@ fn gen_interval(w: &World, len: u64) -> (u64, u64, bool) {
 }
 
 struct OpCtx<'a> {
-    w: &'a W,
     f: &'a FileModel,
     file_len_after_cut: u64,
     intact: bool,
@@ -317,7 +333,6 @@ fn run_history(w: &W, f: &FileModel, steps: u64, allow_faults: bool, allow_cut: 
     }
 
     let cx = OpCtx {
-        w,
         f,
         file_len_after_cut: data.len() as u64,
         intact: cut.is_none(),
@@ -328,7 +343,14 @@ fn run_history(w: &W, f: &FileModel, steps: u64, allow_faults: bool, allow_cut: 
     let mut prev_iter_dropped = false;
     let mut stale: Vec<u8> = b"STALE-STALE".to_vec();
 
-    for step in 0..steps {
+    let mut step = 0u64;
+    loop {
+        if step > 0 && !w.more(step, steps) {
+            break;
+        }
+        let this_step = step;
+        step += 1;
+        let step = this_step;
         // ---- fetch part
         let nrec = f.recs.len();
         let fop = match w.draw(10) {
@@ -509,10 +531,13 @@ fn run_history(w: &W, f: &FileModel, steps: u64, allow_faults: bool, allow_cut: 
                                     }
                                 }
                                 if items > max_items {
-                                    w.clause("C12.g-livelock");
+                                    w.clause("C12.b-iter");
+                                    if w.keep_trace {
+                                        w.note("history", json!(log));
+                                    }
                                     return fail(
-                                        "C12.g-livelock",
-                                        format!("step {}: iterator yielded {} items for a request of {} bases without ending", step, items, max_items - 8),
+                                        "C12.b-iter",
+                                        format!("step {}: {:?} after {:?}: iterator yielded {} items for a request of {} bases and still has not ended (more data than requested, or it never ends)", step, rop, fop, items, max_items - 8),
                                     );
                                 }
                             }
@@ -694,8 +719,7 @@ fn ix_history(w: &W) -> Verdict {
     let f = gen_file(w, large, 4, 60);
     w.probe("workload_nonempty");
     let faults = w.chance(3, 4);
-    let steps = 1 + w.small(0, 9);
-    run_history(w, &f, steps, faults, true)
+    run_history(w, &f, 10, faults, true)
 }
 
 fn ix_clean(w: &W) -> Verdict {
@@ -703,8 +727,7 @@ fn ix_clean(w: &W) -> Verdict {
     let f = gen_file(w, false, 3, 40);
     w.probe("workload_nonempty");
     w.fired("knob_fault_free_reference");
-    let steps = 1 + w.small(0, 9);
-    run_history(w, &f, steps, false, false)
+    run_history(w, &f, 10, false, false)
 }
 
 /// Every (s, e) pair of one small record, each under a fresh schedule.
